@@ -41,14 +41,14 @@ def readU32le : Bytes → Nat
 def footerBytesOfPayload (p : Bytes) : Bytes :=
   p ++ u32le p.length ++ u32le Gen.FOOTER_MAGIC_NUMBER
 
-/-- `Footer::append_footer` -/
+/-- `Footer::append_footer` — mirrors: src/directory/footer.rs::append_footer -/
 def footerBytes (C : PayloadCodec) (f : Footer) : Bytes := footerBytesOfPayload (C.enc f)
 
 inductive Err
   | tooSmall | magic | tooLong | shorterThanFooter | payload
 deriving DecidableEq, Repr
 
-/-- `Footer::extract_footer` (with the `len < 8` guard; see KNOWN_FINDINGS F7 / fix) -/
+/-- `Footer::extract_footer` — mirrors: src/directory/footer.rs::extract_footer -/
 def extract (C : PayloadCodec) (file : Bytes) : Except Err (Footer × Bytes) :=
   let n := file.length
   if n < Gen.FOOTER_MIN_FILE_LEN then .error .tooSmall else
@@ -63,7 +63,7 @@ def extract (C : PayloadCodec) (file : Bytes) : Except Err (Footer × Bytes) :=
   | none => .error .payload
   | some f => .ok (f, file.take (n - total))
 
-/-- `Footer::is_compatible` -/
+/-- `Footer::is_compatible` — mirrors: src/directory/footer.rs::is_compatible -/
 def isCompatible (f : Footer) : Bool :=
   Gen.INDEX_FORMAT_OLDEST_SUPPORTED_VERSION ≤ f.version.fmt.toNat ∧ f.version.fmt.toNat ≤ Gen.INDEX_FORMAT_VERSION
 
@@ -73,7 +73,7 @@ inductive OpenResult
   | corrupt (e : Err)
 deriving DecidableEq, Repr
 
-/-- `ManagedDirectory::open_read` on the raw bytes of a file -/
+/-- `ManagedDirectory::open_read` on the raw bytes — mirrors: src/directory/managed_directory.rs::open_read -/
 def openRead (C : PayloadCodec) (file : Bytes) : OpenResult :=
   match extract C file with
   | .error e => .corrupt e
@@ -83,7 +83,7 @@ inductive Verdict
   | intact | damaged | unreadable (e : Err)
 deriving DecidableEq, Repr
 
-/-- `ManagedDirectory::validate_checksum` on the raw bytes of a file -/
+/-- `ManagedDirectory::validate_checksum` on the raw bytes — mirrors: src/directory/managed_directory.rs::validate_checksum -/
 def validate (C : PayloadCodec) (file : Bytes) : Verdict :=
   match extract C file with
   | .error e => .unreadable e
@@ -102,18 +102,18 @@ structure ProxyState where
 
 def proxyInit : ProxyState := { hasher := Crc32.init, sink := [] }
 
-/-- `FooterProxy::write`: forwards, then hashes `buf[..count]` -/
+/-- `FooterProxy::write`: forwards, then hashes `buf[..count]` — mirrors: src/directory/footer.rs::write -/
 def proxyWrite (s : ProxyState) (w : WriteCall) : ProxyState :=
   let acc := w.buf.take w.count
   { hasher := Crc32.update s.hasher acc, sink := s.sink ++ acc }
 
-/-- `FooterProxy::terminate_ref`: append the footer for the running crc -/
+/-- `FooterProxy::terminate_ref` — mirrors: src/directory/footer.rs::terminate_ref -/
 def proxyTerminate (C : PayloadCodec) (v : Version) (s : ProxyState) : Bytes :=
   s.sink ++ footerBytes C { version := v, crc := Crc32.finalize s.hasher }
 
 /-! ### `Index::validate_checksum`: walk the managed files of the committed segments -/
 
-/-- mirrors `Index::validate_checksum`: `active` = files listed by the committed segment metas,
+/-- mirrors: src/index/index.rs::validate_checksum — `active` = files listed by the committed segment metas,
 `managed` = `.managed.json`, `read p` = raw bytes of `p` (`none`: cannot be opened).
 Returns `none` when some file is unreadable (the `?` in the loop), else the damaged paths. -/
 def indexValidate (C : PayloadCodec) (active managed : List Nat) (read : Nat → Option Bytes) :
